@@ -18,6 +18,8 @@ mod c09;
 mod c10;
 mod c11;
 mod c12;
+mod c14;
+mod c15;
 mod tail;
 mod c16;
 mod c19;
@@ -27,7 +29,7 @@ use std::path::PathBuf;
 use engine::*;
 
 fn properties() -> Vec<Property> {
-    vec![c01::property(), c02::property02(), c02::property03(), c07::property(), c08::property(), c04::property(), c05::property(), c19::property(), c09::property(), c10::property(), c16::property(), c11::property(), c12::property12(), c12::property13()]
+    vec![c01::property(), c02::property02(), c02::property03(), c07::property(), c08::property(), c04::property(), c05::property(), c19::property(), c09::property(), c10::property(), c16::property(), c11::property(), c12::property12(), c12::property13(), c14::property(), c15::property()]
 }
 
 fn main() {
